@@ -89,6 +89,11 @@ func (s *Sched) Go(name string, fn func()) *Task {
 //go:norace
 func (s *Sched) NextSeq() int64 { s.Seq++; return s.Seq }
 
+// CurSeq returns the latest sequence number handed out.
+//
+//go:norace
+func (s *Sched) CurSeq() int64 { return s.Seq }
+
 //go:norace
 func (s *Sched) runnable(t *Task) bool {
 	if t.done {
